@@ -20,9 +20,11 @@ package routing
 // Scenarios (each one BFS, exhaustive within its alphabet and depth):
 //   c-lpm     every prefix of the pool, one peer/origin/seq/metric: reaches every subset
 //             of stored prefixes (x fresh/stale) -- fixpoint
-//   c-metric  two nested prefixes, 2 peers x 2 origins x seq {1,2} x metric {1,2,3} plus local,
-//             dynamic, looped advertisements, withdraw, disconnect, tick, cleanup -- depth-capped
-//   c-mixed   (thorough) four prefixes of both families with 2 origins, 2 metrics, 2 seqs
+//   c-metric  two nested prefixes, 2 origins x seq {1,2} x metric {1,2,3} plus local, dynamic and
+//             looped advertisements, withdraw, disconnect, tick, cleanup -- depth 4 with one peer
+//             (quick), depth 5 with two peers (thorough)
+//   c-peers   (quick) two nested prefixes, 2 peers x 2 origins x metric {1,2} -- depth 4
+//   c-mixed   (thorough) four prefixes of both families, 2 peers x 2 origins x 2 seqs x 2 metrics + local -- depth 4
 
 import (
 	"fmt"
@@ -124,16 +126,22 @@ func c08Scenarios(r *vmc.Result) []rtScenario {
 		pool = append(pool, "::ffff:10.0.0.0/104")
 	}
 	p1, p2 := []string{"P1"}, []string{"P1", "P2"}
+	o2 := []string{"O1", "O2"}
+	nested := []string{"10.0.0.0/8", "10.1.0.0/16"}
 	scs := []rtScenario{
 		rtMkScenario("c-lpm", 0, p1, rtAlpha{Tbl: 'c', Keys: pool, Peers: p1, Origins: []string{"O1"}, Seqs: []uint64{1}, Metrics: []uint16{1}}),
-		rtMkScenario("c-metric", vmc.Pick(r, 4, 5), p2, rtAlpha{Tbl: 'c', Keys: []string{"10.0.0.0/8", "10.1.0.0/16"}, Peers: p2, Origins: []string{"O1", "O2"},
-			Seqs: []uint64{1, 2}, Metrics: []uint16{1, 2, 3}, LoopAdv: true,
-			LocalKeys: []string{"10.1.0.0/16"}, LocalMet: []uint16{2}, DynKeys: []string{"10.0.0.0/8"}}),
 	}
-	if r.Thorough() {
-		scs = append(scs, rtMkScenario("c-mixed", 5, p2, rtAlpha{Tbl: 'c', Keys: []string{"0.0.0.0/0", "10.1.0.0/16", "10.1.2.0/24", "2001:db8::/32"}, Peers: p2,
-			Origins: []string{"O1", "O2"}, Seqs: []uint64{1, 2}, Metrics: []uint16{1, 2},
-			LocalKeys: []string{"10.1.2.0/24"}, LocalMet: []uint16{1}}))
+	if !r.Thorough() {
+		scs = append(scs,
+			rtMkScenario("c-metric", 4, p1, rtAlpha{Tbl: 'c', Keys: nested, Peers: p1, Origins: o2, Seqs: []uint64{1, 2}, Metrics: []uint16{1, 2, 3}, LoopAdv: true,
+				LocalKeys: []string{"10.1.0.0/16"}, LocalMet: []uint16{2}, DynKeys: []string{"10.0.0.0/8"}}),
+			rtMkScenario("c-peers", 4, p2, rtAlpha{Tbl: 'c', Keys: nested, Peers: p2, Origins: o2, Seqs: []uint64{1}, Metrics: []uint16{1, 2}}))
+	} else {
+		scs = append(scs,
+			rtMkScenario("c-metric", 5, p2, rtAlpha{Tbl: 'c', Keys: nested, Peers: p2, Origins: o2, Seqs: []uint64{1, 2}, Metrics: []uint16{1, 2, 3}, LoopAdv: true,
+				LocalKeys: []string{"10.1.0.0/16"}, LocalMet: []uint16{2}, DynKeys: []string{"10.0.0.0/8"}}),
+			rtMkScenario("c-mixed", 4, p2, rtAlpha{Tbl: 'c', Keys: []string{"0.0.0.0/0", "10.1.0.0/16", "10.1.2.0/24", "2001:db8::/32"}, Peers: p2,
+				Origins: o2, Seqs: []uint64{1, 2}, Metrics: []uint16{1, 2}, LocalKeys: []string{"10.1.2.0/24"}, LocalMet: []uint16{1}}))
 	}
 	return scs
 }
@@ -172,11 +180,13 @@ func TestVerif_C08(t *testing.T) {
 			afam, addr := c08Addr(p.IP)
 			best := -1
 			var lens []int
-			seenLen := map[int]bool{}
 			for i := range stored {
 				if c08Contains(decs[i].fam, decs[i].addr, decs[i].ones, afam, addr) {
-					if !seenLen[decs[i].ones] {
-						seenLen[decs[i].ones] = true
+					dup := false
+					for _, l := range lens {
+						dup = dup || l == decs[i].ones
+					}
+					if !dup {
 						lens = append(lens, decs[i].ones)
 					}
 					if decs[i].ones > best {
@@ -215,8 +225,9 @@ func TestVerif_C08(t *testing.T) {
 			}
 			gfam, gaddr, gones, ok := c08Prefix(got.Network)
 			isStored := false
+			gkey := got.Network.String()
 			for _, e := range stored {
-				if e.Ident == got.Network.String() && e.Origin == rtName(got.OriginAgent) && e.NextHop == rtName(got.NextHop) && e.Seq == got.Sequence && e.Metric == got.Metric {
+				if e.Ident == gkey && e.Origin == rtName(got.OriginAgent) && e.NextHop == rtName(got.NextHop) && e.Seq == got.Sequence && e.Metric == got.Metric {
 					isStored = true
 				}
 			}
